@@ -74,7 +74,7 @@ pub fn check(sc: &CScenario) -> CaseResult {
     // per-call first poll seq
     let mut first_poll: Vec<Option<usize>> = vec![None; run.calls.len()];
     for r in &run.recs {
-        if let Ev::PollStart { task } = &r.ev {
+        if let Ev::PollStart { task, .. } = &r.ev {
             if let Some(c) = run.calls.iter().find(|c| c.task == *task) {
                 if first_poll[c.call].is_none() {
                     first_poll[c.call] = Some(r.seq);
